@@ -57,9 +57,12 @@ DEFECTS = ["none", "warn", "type", "dupid", "dupname",
            # the same three ways of being invalid, planted deep and across branches
            "type_deep", "dupid_deep", "dupid_prop", "dupid_prop_deep", "dupname_deep", "dupname_prop",
            # the defect sits in content a resolved link brought in, and its origin has left the document
-           "type_copy"]
+           "type_copy",
+           # the Document has an id of its own: a Section or Property may carry that one
+           "dupid_doc", "dupid_doc_prop"]
 ERROR_DEFECTS = ("type", "dupid", "dupname", "type_deep", "dupid_deep", "dupid_prop",
-                 "dupid_prop_deep", "dupname_deep", "dupname_prop", "type_copy")
+                 "dupid_prop_deep", "dupname_deep", "dupname_prop", "type_copy",
+                 "dupid_doc", "dupid_doc_prop")
 FAILS = ["none", "rdf_format", "ctrl_name", "ctrl_value", "ctrl_def", "json_obj",
          # text no encoder of a text file can hold: a lone surrogate (what os.fsdecode returns
          # for undecodable file names); a renderer that lets it through fails in write()
@@ -188,6 +191,11 @@ def build_doc(odml, defect, fail, variant=0):
         dup.name = src.name + "copy"
         dest = other_branch(src.parent) if defect == "dupid_prop_deep" else [src.parent]
         rng.choice(dest or [src.parent]).append(dup)
+    elif defect == "dupid_doc":
+        rng.choice(deep if variant % 2 else secs).append(
+            odml.Section(name="docid", type="t", oid=doc.id))
+    elif defect == "dupid_doc_prop":
+        rng.choice(secs).append(odml.Property(name="docid", values=[1], oid=doc.id))
     elif defect == "dupname":
         tops = [s for s in secs if s.parent is doc]
         src = rng.choice(tops)
